@@ -67,6 +67,7 @@ func genC17(dir, tier string, seed int64) {
 			break
 		}
 		base := map[int]string{}
+		var seqTime time.Duration // the slowest sequential Run of this model (race-detector build)
 		ok := true
 		for v := 0; v < cm.nVar; v++ {
 			m, err := gonnx.NewModelFromBytes(cm.bytes)
@@ -74,7 +75,11 @@ func genC17(dir, tier string, seed int64) {
 				ok = false
 				break
 			}
+			t0 := time.Now()
 			out, err, _ := runRec(m, cm.mk(v))
+			if d := time.Since(t0); d > seqTime {
+				seqTime = d
+			}
 			base[v] = outSnap(out, err, cm.outs)
 		}
 		if !ok {
@@ -132,17 +137,17 @@ func genC17(dir, tier string, seed int64) {
 				p0 := paramSnapshot(shared)
 				close(start)
 				// a Run that never returns is a violation, not a broken check: the whole concurrent phase
-				// (milliseconds when it works) gets 90 seconds
+				// gets 90 seconds plus twenty times the time the same number of Runs takes sequentially
 				finished := make(chan struct{})
 				go func() { wg.Wait(); close(finished) }()
 				select {
 				case <-finished:
-				case <-time.After(90 * time.Second):
+				case <-time.After(90*time.Second + time.Duration(20*nG*runsPer)*seqTime):
 					hung = true
 				}
 				close(stop)
 				if hung {
-					res.Violations = append(res.Violations, fmt.Sprintf("%s: %d goroutines x %d Runs on one shared Model did not all return within 90 s; %d of %d Runs had returned (deadlock or livelock inside Run; the sequential baseline takes milliseconds). The stream stops here: later models may hang on the same process-wide state", cm.name, nG, runsPer, atomic.LoadInt64(&returned), nG*runsPer))
+					res.Violations = append(res.Violations, fmt.Sprintf("%s: %d goroutines x %d Runs on one shared Model did not all return within 90 s + 20 x the sequential time of as many Runs; %d of %d Runs had returned (deadlock or livelock inside Run). The stream stops here: later models may hang on the same process-wide state", cm.name, nG, runsPer, atomic.LoadInt64(&returned), nG*runsPer))
 					break
 				}
 				<-loaderDone
